@@ -1,6 +1,6 @@
 From Coq Require Import QArith.
 From BT Require Import Base.Util Base.Float Model.RTree Model.BBIFile Model.BigWigWrite Model.BBIRead
-  Model.BedStats Proofs.Chunks Proofs.BigWigQuery Proofs.BedStatsThms Proofs.BedStatsFloat Proofs.BedStatsRows.
+  Model.BedStats Proofs.Chunks Proofs.BigWigQuery Proofs.BedStatsThms Proofs.BedStatsFloat Proofs.BedStatsRows Proofs.BedStatsNames Proofs.BedStatsValues.
 From BT Require Properties.C17.
 Local Open Scope N_scope.
 Check (C17.C17_stats : forall fp len ips s e vals, (0 < ips)%nat -> wf_vals len vals -> s <= e ->
@@ -29,3 +29,25 @@ Check (C17.C17_chunked_eq_serial : forall fp q m minmax chunks out, cuts_at_line
   avg_serial fp q m minmax (concat chunks) = Ok out -> avg_parallel fp q m minmax chunks = Ok out).
 Check (C17.C17_chunking_irrelevant : forall fp q m minmax chunks, cuts_at_lines chunks ->
   avg_parallel fp q m minmax chunks = avg_chunk fp q m minmax (concat chunks)).
+Check (C17.C17_name : forall chrom s e extra,
+  no_tab chrom -> Forall no_tab extra -> s < 2 ^ 32 -> e < 2 ^ 32 ->
+  let fields := chrom :: dec s :: dec e :: extra in
+  let line := join TAB fields in
+  let en := {| be_start := s; be_end := e; be_rest := join TAB extra |} in
+  trim_end line = line ->
+  parse_bed line = Ok (chrom, en) /\
+  (forall n f, nth_error fields n = Some f -> name_for_bed_item (NColumn n) chrom en = Ok f) /\
+  name_for_bed_item NInterval chrom en = Ok (chrom ++ [58] ++ dec s ++ [45] ++ dec e) /\
+  name_for_bed_item NNone chrom en = Ok (match extra with [] => line ++ [TAB] | _ => line end)).
+Check (C17.C17_values_over_bed : forall len s e vals, wf_vals len vals -> s <= e ->
+  existsb (out_of_region s e) (clip_filter s e vals) = false /\
+  length (vob_fill s e (clip_filter s e vals)) = N.to_nat (e - s) /\
+  forall i, (i < N.to_nat (e - s))%nat ->
+    nth_error (vob_fill s e (clip_filter s e vals)) i =
+    Some (match find (covers (s + N.of_nat i)) vals with Some v => v_bits v | None => 0 end)).
+Check (C17.C17_values_over_bed_last : forall s e vals, s <= e ->
+  existsb (out_of_region s e) (clip_filter s e vals) = false /\
+  length (vob_fill s e (clip_filter s e vals)) = N.to_nat (e - s) /\
+  forall i, (i < N.to_nat (e - s))%nat ->
+    nth_error (vob_fill s e (clip_filter s e vals)) i =
+    Some (match find (covers (s + N.of_nat i)) (rev vals) with Some v => v_bits v | None => 0 end)).
